@@ -228,8 +228,11 @@ theorem no_row_reads_scratch (p : MapIn) (hc : p.check = none) (k : Nat) (o : Op
     accepted by the map certificate (C08; evaluated on the real tables), `c_caps_min ≥ 2` (WaveSim: 4), rows `op_start … op_stop - 1`
     inside the program and inside ONE level of `level_starts` (`oneLevelB`; holds for every pair `(level_starts[i], level_stops[i])`,
     `oneLevelB_of_starts`), accumulation controls arbitrary, the evaluator built from the waveform model with the table's
-    `c_locs` / `c_caps` and any delays: EVERY list of threads that is a permutation of the work items — every interleaving a GPU
-    may choose — leaves on every lane `k` (1) the same accumulators `abuf[:, k]` and (2) the same memory cell `c[a, k]` for
+    `c_locs` / `c_caps` and any delays: EVERY list of threads that is a permutation of the work items — every SERIAL order of whole evaluator
+    calls: a thread is one atomic `cpuBody` step (what MockCuda and the CPU loop execute; a real GPU may interleave the instructions of
+    two threads, which this statement covers only for threads with disjoint footprints — all pairs except two SCRATCH writers of one
+    level and lane: the real `_wave_eval` reads back its own output region (`previous_t`, wave_sim.py:243-261), so with truly concurrent
+    scratch writers the `nrise/nfall` of a scratch row with `a_loc ≥ 0` is outside this theorem; third audit, finding 1) — leaves on every lane `k` (1) the same accumulators `abuf[:, k]` and (2) the same memory cell `c[a, k]` for
     every address `a` OUTSIDE the two scratch regions as `level_eval_cpu`. (Inside the scratch regions the last writer wins: the
     orders differ there, and no row reads them — `no_row_reads_scratch`.) No per-level footprint hypothesis remains. -/
 theorem level_threads_any_order (p : MapIn) (hc : p.check = none) (hmin : 2 ≤ p.capsMin)
